@@ -44,15 +44,20 @@ claim("C03", "other",
       "contract-based deductive verification (symbolic dictionary, ghost counting function, loop invariants; z3+cvc5) + bounded exhaustive-arrangement native evaluation", "DESIGN.md 5/C03")
 
 claim("C08", "other",
-      "Proof: _search_range_to_index_range returns the half-open index range [first index nearest f_low, first index nearest f_high + 1) for all four "
-      "None-patterns, all grids and limits (so the sample nearest the upper limit is inside the searched slice); _find_peak_unbounded returns "
-      "(None, None) iff scipy keeps no candidate and otherwise frequency and amplitude taken at the same candidate index whose amplitude is "
-      "maximal among the candidates (with and without find_peaks keyword filters). Cross-check/bounded (labelled): HvsrCurve, every window of "
-      "HvsrTraditional incl. the NaN/mask handling, every azimuth of HvsrAzimuthal, HvsrDiffuseField.mean_curve_peak and the mean-curve peaks, "
-      "over histories of 1-4 range updates, against an independent local-maximum oracle.",
+      "Proof, for all grids, curves, limits and window counts (four None-patterns of the range; scipy filters absent / empty / present): "
+      "_search_range_to_index_range returns the half-open index range [first index nearest f_low, first index nearest f_high + 1); "
+      "_find_peak_unbounded returns (None, None) iff scipy keeps no candidate and otherwise frequency and amplitude at the same candidate index of "
+      "maximal amplitude; _find_peak_bounded (callees by contract) returns the highest local maximum strictly inside that index range, absent only "
+      "when the range holds no strict local maximum; HvsrCurve.update_peaks_bounded stores exactly that (NaN when absent, nothing recomputed when "
+      "range and filters are the stored ones); HvsrTraditional.update_peaks_bounded does so for every window by a loop invariant over the rows, "
+      "with both masks False and NaN for a window without a peak and every window kept when none has a peak; HvsrTraditional.mean_curve_peak "
+      "returns the highest local maximum of the mean curve in the stored range, ValueError only when there is none. With scipy filters present "
+      "only 'frequency and amplitude of one sample strictly inside the range' is claimed. Cross-check/bounded (labelled): every azimuth of "
+      "HvsrAzimuthal, HvsrDiffuseField.mean_curve_peak and the objects above over histories of 1-4 range updates, against an independent "
+      "local-maximum oracle.",
       TB + "A-ARGMIN/A-ARGMAX (first index of the extremum), A-FIND-PEAKS (scipy.signal.find_peaks: increasing interior indices, not lower than "
-      "their neighbours, every strict local maximum present).",
-      "contract-based deductive verification (z3+cvc5) of the index-range and candidate-selection functions + native contract evaluation over update histories", "DESIGN.md 5/C08")
+      "their neighbours, every strict local maximum present); A-NAN (NaN is a distinguished constant that is only stored and tested).",
+      "contract-based deductive verification (z3+cvc5) of the peak-search call chain from the index range up to the per-window update, callees by contract + native contract evaluation over update histories", "DESIGN.md 5/C08")
 
 claim("C10", "other",
       "Proof: TimeSeries.split under a relative-error model of IEEE division/addition (|delta| <= 2**-53): the number k of sample intervals per "
